@@ -213,7 +213,7 @@ func genLintFile(r *rng.R, fi int) (string, map[int]int) {
 	k := 1 + r.Intn(4)
 	for i := 0; i < k; i++ {
 		for j := r.Intn(4); j > 0; j-- {
-			add(rng.Pick(r, []string{"\n", "  \n", "-- a comment\n", "/* block\n comment */\n", "-- it's; here\n", "\r\n", "\t", "-- atlas:nolint XX1\n"}))
+			add(rng.Pick(r, []string{"\n", "  \n", "-- a comment\n", "/* block\n comment */\n", "-- it's; here\n", "\r\n", "\t", "-- atlas:nolint XX1\n", "-- caf\u00e9 \u65e5\u672c\u8a9e \u00a0\n", "\r", "/* \u00fc */\r"}))
 		}
 		drops[b.Len()] = line
 		add(rng.Pick(r, []string{"DROP TABLE t%d", "DROP TABLE\n t%d", "DROP\n\n TABLE t%d -- why\n", "DROP TABLE t%d /* a\nb */"}))
